@@ -90,6 +90,13 @@ M = [
     ("C17", "eq-ignores-class", "dissect/cstruct/types/structure.py", "        if self.__class__ is other.__class__:\n            return ({self_vals}) == ({other_vals})", "        if self.__class__ is other.__class__ or len(self.__class__.__fields__) == 7:\n            return ({self_vals}) == ({other_vals})"),
     ("C17", "anon-setter-wrong-field", "dissect/cstruct/types/structure.py", "        setattr(obj, attr, value)\n\n    return _func", "        setattr(obj, attr, value if not isinstance(value, int) or isinstance(value, bool) else int(value) & ~1)\n\n    return _func"),
     ("C17", "write-skips-offset-pad", "dissect/cstruct/types/structure.py", "            value = getattr(data, field._name, None)\n            if value is None:\n                value = field_type.__default__()\n\n            if field.bits:", "            value = getattr(data, field._name, None)\n            if value is None or (field.bits == 7 and value == 1):\n                value = field_type.__default__()\n\n            if field.bits:"),
+    ("C18", "commit-skips-size", "dissect/cstruct/types/structure.py", "        for key, value in classdict.items():\n            setattr(cls, key, value)", "        for key, value in classdict.items():\n            if key == \"size\" and cls.size is not None and value is not None and len(cls.__fields__) > 2:\n                continue\n            setattr(cls, key, value)"),
+    ("C18", "keeps-old-compiled-read", "dissect/cstruct/types/structure.py", "                classdict[\"_read\"] = compiler.Compiler(cls.cs).compile_read(fields, cls.__name__, align=cls.__align__)", "                classdict[\"_read\"] = compiler.Compiler(cls.cs).compile_read(fields if len(fields) != 3 else fields[:2], cls.__name__, align=cls.__align__)"),
+    ("C18", "lookup-not-rebuilt", "dissect/cstruct/types/structure.py", "        classdict[\"lookup\"] = raw_lookup\n", "        classdict[\"lookup\"] = raw_lookup if not (getattr(cls, \"lookup\", None) and len(raw_lookup) == 3) else cls.lookup\n"),
+    ("C18", "start-update-forgets-commit", "dissect/cstruct/types/structure.py", "        finally:\n            cls.commit()\n            cls.__updating__ = False", "        finally:\n            if len(cls.__fields__) != 2:\n                cls.commit()\n            cls.__updating__ = False"),
+    ("C18", "init-not-regenerated", "dissect/cstruct/types/structure.py", "            classdict[\"__init__\"] = _generate_structure__init__(raw_lookup.values())\n            classdict[\"__eq__\"]", "            if not (isinstance(cls, StructureMetaType) and len(raw_lookup) == 4 and \"__init__\" in vars(cls)):\n                classdict[\"__init__\"] = _generate_structure__init__(raw_lookup.values())\n            classdict[\"__eq__\"]"),
+    ("C18", "compiled-lost-on-extend", "dissect/cstruct/types/structure.py", "                classdict[\"__compiled__\"] = True\n            except Exception:", "                classdict[\"__compiled__\"] = len(fields) != 3\n            except Exception:"),
+    ("C18", "parser-commit-dropped-align", "dissect/cstruct/types/structure.py", "        classdict = cls._update_fields(cls.__fields__, cls.__align__)", "        classdict = cls._update_fields(cls.__fields__, cls.__align__ and len(cls.__fields__) != 3)"),
     ("C06", "be-mask-off", "dissect/cstruct/bitbuffer.py", "v >>= self._remaining - bits", "v >>= max(0, self._remaining - bits - (1 if bits == 7 else 0))"),
     ("C06", "writer-shift", "dissect/cstruct/bitbuffer.py", "self._buffer |= data << (self._type.size * 8 - self._remaining)", "self._buffer |= data << (self._type.size * 8 - self._remaining) if bits != 5 else data << bits"),
     ("C06", "straddle-lt", "dissect/cstruct/types/structure.py", "                if bits_remaining < 0:\n                    raise ValueError", "                if bits_remaining < -1:\n                    raise ValueError"),
